@@ -3565,15 +3565,30 @@ def l_in(_, instr, src1, src2):
     return e, []
 
 
-@sbuild.parse
-def cmpxchg(arg1, arg2):
-    accumulator = mRAX[instr.v_opmode()][:arg1.size]
-    if (accumulator - arg1):
-        zf = i1(0)
-        accumulator = arg1
-    else:
-        zf = i1(1)
-        arg1 = arg2
+def cmpxchg(ir, instr, arg1, arg2):
+    size = arg1.size
+    # AL is a part of RAX/EAX, not of the operand-size register: writing it
+    # leaves the other bits untouched
+    accumulator = mRAX[instr.mode][:8] if size == 8 else mRAX[size]
+
+    # All the status flags are set as by CMP accumulator, destination
+    e, _ = l_cmp(ir, instr, accumulator, arg1)
+
+    loc_diff, loc_diff_expr = ir.gen_loc_key_and_expr(ir.IRDst.size)
+    loc_equal, loc_equal_expr = ir.gen_loc_key_and_expr(ir.IRDst.size)
+    loc_next = ir.get_next_loc_key(instr)
+    loc_next_expr = m2_expr.ExprLoc(loc_next, ir.IRDst.size)
+
+    do_diff = [m2_expr.ExprAssign(accumulator, arg1),
+               m2_expr.ExprAssign(ir.IRDst, loc_next_expr)]
+    do_equal = [m2_expr.ExprAssign(arg1, arg2),
+                m2_expr.ExprAssign(ir.IRDst, loc_next_expr)]
+    e.append(m2_expr.ExprAssign(ir.IRDst,
+                                m2_expr.ExprCond(accumulator - arg1,
+                                                 loc_diff_expr,
+                                                 loc_equal_expr)))
+    return e, [IRBlock(ir.loc_db, loc_diff, [AssignBlock(do_diff, instr)]),
+               IRBlock(ir.loc_db, loc_equal, [AssignBlock(do_equal, instr)])]
 
 
 @sbuild.parse
